@@ -565,3 +565,82 @@ Proof.
   split; [vm_compute; reflexivity|]. split; [vm_compute; reflexivity|].
   eexists _, _, _, _. split; [vm_compute; reflexivity|]. repeat (split; [vm_compute; reflexivity|]). vm_compute. reflexivity.
 Qed.
+
+(* ---------- formatting already formatted code changes nothing (token level) ----------
+   formatted_as G ts ts' (Spec/ReindentSpec.v): ts' has the significant tokens of ts, and every run of ts' is spelled (joined codes)
+   as G rewrites the run of ts at the same place - ts' is "the formatted ts", re-read.  Then the text of ts' is ref_fmt G ts, and
+   ref_fmt G leaves it alone (C10_run_idempotent run by run); with C10_output_form: a token list inside the domain that is spelled as
+   the reference formatting of some token list is written back byte for byte.  Missing for the property's clause on texts: that
+   lexing luafmt's output gives such a token list (the lexer on written text; worker lexer). *)
+Theorem C10_formatted_fixed : forall w ts ts', formatted_as (gap_fmt w) ts ts' ->
+  flat_map tcode ts' = ref_fmt (gap_fmt w) ts /\ ref_fmt (gap_fmt w) ts' = ref_fmt (gap_fmt w) ts.
+Proof. exact ref_fmt_idem. Qed.
+Print Assumptions C10_formatted_fixed.
+
+Theorem C10_idempotent_tokens : forall w ts ts' root' e',
+  lua_parse ts' = Ok (root', e') -> consumed ts' e' = true -> writable ts' root' = true ->
+  no_trailing_sep root' = true -> gaps_tidy ts' = true ->
+  formatted_as (gap_fmt w) ts ts' ->
+  writer_text (fmt_spaces w) ts' (view root') = Ok (flat_map tcode ts').
+Proof. exact program_idempotent. Qed.
+Print Assumptions C10_idempotent_tokens.
+
+(* non-vacuity: the lexer's tokens of the text luafmt (width 2) writes for C10_layout1 / C10_layout2 are formatted_as both
+   layouts, inside the domain, and written back unchanged *)
+Definition C10_layout_formatted : list token :=
+  [mkTok CComment 0 [45; 45; 32; 104; 101; 97; 100] [45; 45; 32; 104; 101; 97; 100];
+   mkTok CNewline 0 [10] [10];
+   mkTok CKeyword 0 [102; 117; 110; 99; 116; 105; 111; 110] [102; 117; 110; 99; 116; 105; 111; 110];
+   mkTok CSpace 0 [32] [32];
+   mkTok CName 0 [102] [102];
+   mkTok CSymbol 0 [40] [40];
+   mkTok CName 0 [97] [97];
+   mkTok CSymbol 0 [41] [41];
+   mkTok CNewline 0 [10] [10];
+   mkTok CSpace 0 [32; 32] [32; 32];
+   mkTok CKeyword 0 [105; 102] [105; 102];
+   mkTok CSpace 0 [32] [32];
+   mkTok CSymbol 0 [40] [40];
+   mkTok CName 0 [97] [97];
+   mkTok CSymbol 0 [41] [41];
+   mkTok CSpace 0 [32] [32];
+   mkTok CName 0 [120] [120];
+   mkTok CSymbol 0 [61] [61];
+   mkTok CNumber 0 [49] [49];
+   mkTok CSpace 0 [32] [32];
+   mkTok CKeyword 0 [101; 108; 115; 101] [101; 108; 115; 101];
+   mkTok CSpace 0 [32] [32];
+   mkTok CName 0 [121] [121];
+   mkTok CSymbol 0 [61] [61];
+   mkTok CNumber 0 [50] [50];
+   mkTok CSpace 0 [32; 32] [32; 32];
+   mkTok CComment 0 [45; 45; 32; 99] [45; 45; 32; 99];
+   mkTok CNewline 0 [10] [10];
+   mkTok CNewline 0 [10] [10];
+   mkTok CSpace 0 [32; 32] [32; 32];
+   mkTok CName 0 [116] [116];
+   mkTok CSymbol 0 [61] [61];
+   mkTok CSymbol 0 [123] [123];
+   mkTok CNumber 0 [49] [49];
+   mkTok CSymbol 0 [44] [44];
+   mkTok CNewline 0 [10] [10];
+   mkTok CSpace 0 [32; 32; 32; 32] [32; 32; 32; 32];
+   mkTok CNumber 0 [50] [50];
+   mkTok CSymbol 0 [125] [125];
+   mkTok CNewline 0 [10] [10];
+   mkTok CKeyword 0 [101; 110; 100] [101; 110; 100];
+   mkTok CNewline 0 [10] [10]].
+
+Example C10_idempotent_nonvacuous :
+  formatted_as (gap_fmt 2) C10_layout1 C10_layout_formatted /\ formatted_as (gap_fmt 2) C10_layout2 C10_layout_formatted /\
+  gaps_tidy C10_layout_formatted = true /\
+  exists root e, lua_parse C10_layout_formatted = Ok (root, e) /\ consumed C10_layout_formatted e = true /\
+    writable C10_layout_formatted root = true /\ no_trailing_sep root = true /\
+    writer_text (fmt_spaces 2) C10_layout_formatted (view root) = Ok (flat_map tcode C10_layout_formatted) /\
+    (exists root2 e2, lua_parse C10_layout2 = Ok (root2, e2) /\
+       writer_text (fmt_spaces 2) C10_layout2 (view root2) = Ok (flat_map tcode C10_layout_formatted)).
+Proof.
+  split; [vm_compute; repeat split; reflexivity|]. split; [vm_compute; repeat split; reflexivity|]. split; [vm_compute; reflexivity|].
+  eexists _, _. split; [vm_compute; reflexivity|]. repeat (split; [vm_compute; reflexivity|]).
+  eexists _, _. split; vm_compute; reflexivity.
+Qed.
